@@ -36,7 +36,24 @@ APPS = {
 }
 
 
+def paper_block(master):
+    """the BIP85 section a PAPER wallet built from this master prints (a wrapper one level up): must be the reference block"""
+    from btc_hd_wallet.paper_wallet import PaperWallet
+    _, node = hd.parse_xkey(master["xkey"])
+    st, got = attempt(lambda: PaperWallet.from_extended_key(master["xkey"]).bip85_data())
+    exp = hd.bip85_block(node)
+    if st != "ok":
+        return "violation", None, [V("%s:paper:in-range:refused" % P, "PaperWallet.bip85_data raised %s" % got)]
+    bad = sorted(k for k in exp if got.get(k) != exp[k]) if isinstance(got, dict) else ["not a mapping"]
+    if bad:
+        return "violation", None, [V("%s:paper:in-range:wrong-value" % P, "BIP85 section of the paper wallet differs at %r" % (bad[:3],),
+                                     str([got.get(k) for k in bad[:1]] if isinstance(got, dict) else got)[:120], str([exp[k] for k in bad[:1] if k in exp])[:120])]
+    return "value-ok-paper", None, []
+
+
 def one(master, app, param, index):
+    if app == "paper":
+        return paper_block(master)
     b, node = mk(master)
     f, rf = APPS[app]
     st, got = attempt(f, b, param, index)
@@ -58,7 +75,7 @@ def one(master, app, param, index):
     return "value-ok-" + app, got, []
 
 
-HIST_REQ = [("hex", 32, 0), ("wif", None, 0), ("mnemonic", 12, 0), ("pwd", 21, 1), ("xprv", None, 0)]
+HIST_REQ = [("hex", 32, 0), ("wif", None, 0), ("mnemonic", 12, 0), ("pwd", 21, 1), ("xprv", None, 0), ("paper", None, 0)]
 
 
 def hist_masters():
@@ -210,6 +227,29 @@ def run(ctx):
         lz.append({"k": "one", "master": m, "app": "pwd", "param": 21, "index": leading_zero_index(m, [707764, 21])})
         lz.append({"k": "one", "master": m, "app": "mnemonic", "param": 12, "index": leading_zero_index(m, [39, 0, 12])})
     ctx.product("leading-zero-path-keys", lz, execute)
+    # corner classes of the computed intermediates (vf/corners.py): the private key at the end of the hardened path (= the HMAC
+    # message) and the 64 entropy bytes - every byte position 00 / ff, every first / last byte value, per application family
+    from .. import corners
+    from ..core import HarnessError
+    fams = [("wif", None, [2]), ("hex", 32, [128169, 32]), ("mnemonic", 12, [39, 0, 12])] + ([("xprv", None, [32]), ("pwd", 21, [707764, 21])] if ctx.thorough else [])
+    cm = ms[1]
+    _, cnode = hd.parse_xkey(cm["xkey"])
+    ccases = []
+    for app, param, ap in fams:
+        base = hd.derive(cnode, [H + p_ for p_ in [hd.BIP85_ROOT] + ap])
+
+        def cands():
+            i = ctx.seed * 100000 + 2
+            while True:
+                kid = hd.ckd_priv(base, H + i)
+                yield i, {"pathkey": kid.k.to_bytes(32, "big"), "entropy": hd._prf(b"bip-entropy-from-k", kid.k.to_bytes(32, "big"), None)}
+                i += 1
+        kept, st = corners.cover(cands(), {"pathkey": 32, "entropy": 64}, 60000, pairs=ctx.thorough)
+        ctx.extra["intermediate_corner_classes_" + app] = st
+        if st["covered"] != st["classes"]:
+            raise HarnessError("corner cover incomplete: %r" % (st,))
+        ccases += [{"k": "one", "master": cm, "app": app, "param": param, "index": i} for i, _ in kept]
+    ctx.product("intermediate-corners", ccases, execute, chunk=8)
     agg = ctx.product("all-parameters", cases, execute, chunk=1)
     # distinctness across indexes within one master
     per_master = {}
